@@ -48,6 +48,7 @@
 #include <condition_variable>
 #include <atomic>
 #include <cassert>
+#include <cstdio>
 
 #include "TasmanianOptimization.hpp"
 
